@@ -9,7 +9,7 @@ def contractNotDischarged : List String := [
   "py/classmethod.go:init·closure:assert:self.(*ClassMethod)#0",
   "py/staticmethod.go:init·closure:assert:self.(*StaticMethod)#0"]
 
-def openCount : Nat := 72
+def openCount : Nat := 74
 
 def openIndexCount : Nat := 259
 
@@ -86,6 +86,8 @@ def openKeys : List String := [
   "vm/eval.go:do_SET_ADD:assert:v.(*py.Set)#0",
   "vm/eval.go:do_STORE_DEREF:assert:vm.frame.CellAndFreeVars[i].(*py.Cell)#0",
   "vm/eval.go:do_WITH_CLEANUP:panic:panic(\"vm: WITH_CLEANUP expecting TryBlockExceptHandler\")#0",
-  "vm/eval.go:formatMissing:panic:panic(\"vm: format_missing: no names\")#0"]
+  "vm/eval.go:formatMissing:panic:panic(\"vm: format_missing: no names\")#0",
+  "vm/eval.go:objectIs:assert:b.(py.Complex)#0",
+  "vm/eval.go:objectIs:assert:b.(py.Float)#0"]
 
 end GPy.C10.Expected
